@@ -373,7 +373,9 @@ def gen_heat_loop(rng, n_cons=None, modes=None, with_hex=True, makeup=False, rec
         i = int(rng.integers(1, k + 1))
         mf = float(rng.uniform(0.1, 0.5))
         s["flow_controls"].append({"from": 2 * i, "to": nj, "mdot": mf, "control_active": True, "in_service": True})
-        s["heat_exchangers"].append({"from": nj, "to": 2 * i + 1, "qext_w": mf * 4186.0 * float(rng.uniform(5, 30)),
+        hx_rev = bool(rng.random() < 0.3)          # declared against the flow
+        s["heat_exchangers"].append({"from": (2 * i + 1) if hx_rev else nj, "to": nj if hx_rev else (2 * i + 1),
+                                     "qext_w": mf * 4186.0 * float(rng.uniform(5, 30)),
                                      "d_mm": float(rng.choice([80.0, 100.0, 100.0, 150.0])),
                                      "loss": float(rng.choice([0.0, 0.0, 2.0])), "in_service": True})
         total_m += mf
